@@ -268,7 +268,67 @@ def calls(run, P, rule):
            why="errors collected in a list that is not the one tested at the end are lost")
 
 
+# raises of dagrt.language that the passes can reach and that are no concern of the
+# property: one line of reason each
+_REACHABLE_RAISE_OK = {
+    ("AssignBase", "get_written_variables"):
+        "a left-hand side that is neither a variable nor a subscript is not a statement "
+        "form the language defines",
+}
+
+_PASSES = ("verify_code", "verify_all_dependencies_exist", "verify_no_circular_dependencies",
+           "verify_switch_phases", "verify_single_definition_cond_rule")
+
+
+def _reachable_raises(run, P):
+    """What the passes read from phases and statements (properties, methods of
+    dagrt.language) does not raise on its own: an exception that is not a
+    CodeGenerationError would leave verify_code while the error list is still empty."""
+    m = P.module(MOD)
+    lang = P.module("dagrt.language")
+    attrs = set()
+    for n in _PASSES:
+        f = m.functions.get(n)
+        if f is None:
+            raise AnalysisError(f"{MOD}.{n} not found")
+        for x in ast.walk(f.node):
+            if isinstance(x, ast.Attribute) and isinstance(x.ctx, ast.Load):
+                attrs.add(x.attr)
+    n_fn = 0
+    for c in sorted(lang.classes.values(), key=lambda c: c.name):
+        for a in sorted(attrs):
+            f = c.methods.get(a)
+            if f is None or f.cls is not c:
+                continue
+            n_fn += 1
+            rs = [r for r in ast.walk(f.node) if isinstance(r, ast.Raise)]
+            excused = (c.name, a) in _REACHABLE_RAISE_OK
+            run.ob("C10.raise", f, rs[0] if rs else f.node, not rs or excused,
+                   construct=f"{c.name}.{a} (read by the verifier) raises nothing of its own"
+                             + (f" (excused: {len(rs)} raise)" if rs and excused else "")
+                             + (f" (found {norm(rs[0], 50)})" if rs and not excused else ""),
+                   why="verify_code re-raises what a pass throws while no error has been "
+                       "recorded: an ill-formed method is then refused with some other "
+                       "exception, or not at all, instead of CodeGenerationError")
+    if n_fn < 5:
+        raise AnalysisError(f"only {n_fn} properties / methods of dagrt.language read by the verifier")
+    # a pass that is not one of the four: what it accepts and refuses is not known here
+    vc = m.functions["verify_code"]
+    errs = None
+    for x in ast.walk(vc.node):
+        if isinstance(x, ast.Call) and dotted(x.func) in _PASSES and len(x.args) >= 2:
+            errs = dotted(x.args[1])
+    for x in ast.walk(vc.node):
+        if isinstance(x, ast.Call) and dotted(x.func) not in _PASSES and errs and any(
+                dotted(a_) == errs for a_ in list(x.args) + [k.value for k in x.keywords]) \
+                and dotted(x.func) not in ("CodeGenerationError", f"{errs}.append", f"{errs}.extend",
+                                           "len", "bool"):
+            raise AnalysisError(f"verify_code: {norm(x)[:60]} is handed the error list; a verifier "
+                                f"pass this check does not know")
+
+
 def _raise(run, P):
+    run.do(_reachable_raises, run, P)
     from .util import find, has
     f = P.func(f"{MOD}.verify_code")
     # the error list: the name passed as second argument to the passes
